@@ -33,7 +33,7 @@ MODELS = {
                     SETTERS="{}", DEPTH=3, EMITACTS=S("count")), dict(CHUNKS=rng(0, 33), OFFS=rng(0, 33))),
     "MC_C06": (dict(T=4, Q=6, NINST=1, LENS=S(1, 2, 3), MAXPROG=3, CAPS=S(24), Q0=10, CHUNKS="{}", OFFS=rng(0, 3), KINDS=S("ext", "int"),
                     SETTERS="{}", DEPTH=4, EMITACTS=S("asm")), {}),
-    "MC_C15": (dict(T=4, Q=6, NINST=2, LENS=S(1, 3), MAXPROG=2, CAPS=S(7, 12), Q0=10, CHUNKS=S(0, 2, 3), OFFS=S(0, 2, 5), KINDS=S("ext", "int"),
+    "MC_C15": (dict(T=4, Q=6, NINST=2, LENS=S(1, 3), MAXPROG=2, CAPS=S(7, 12), Q0=10, CHUNKS=S(0, 2, 4), OFFS=S(0, 2, 5), KINDS=S("ext", "int"),
                     SETTERS="{}", DEPTH=4, EMITACTS=S("asm", "count")), dict(DEPTH=5)),
 }
 KEYS = ["T", "Q", "NINST", "LENS", "MAXPROG", "CAPS", "Q0", "CHUNKS", "OFFS", "KINDS", "SETTERS", "DEPTH", "EMITACTS"]
@@ -131,6 +131,7 @@ class Lines:
 
 # ----------------------------------------------------------------------------- scripts
 OPTV = {"STRICT": 0, "NASM": 1, "SMART": 2, "BAD": 7}
+BADVALS = [3, 4, 7, 255, 256, 257, 258, 512, 513, 514, 65536, 65537, 65538, -1, -254, -255, -256, 2147483647, 16777216, 16777217]
 
 
 def hx(text):
@@ -172,7 +173,11 @@ class Script:
             st[1] = v
         if s in ("nobase", "sib", "all") and v in ("STRICT", "NASM"):
             st[2] = v
-        self.lines.append("O %d %s %d" % (i, s, OPTV[v]))
+        num = OPTV[v]
+        if v == "BAD":
+            # a value the setters do not document: small, byte-boundary aliases of the documented values, negative, huge
+            num = BADVALS[zlib.crc32(("bad:%s:%d" % (self.sid, len(self.lines))).encode()) % len(BADVALS)]
+        self.lines.append("O %d %s %d" % (i, s, num))
         self.meta.append({})
 
     def chunk(self, i, c):
@@ -253,7 +258,7 @@ class Script:
 
 
 DETOURS = ["count-fail", "count-partial-fail", "asm-fail", "count-ok", "count-fail", "other-instance", "asm-ok", "count-partial-fail", "chunk-toggle", "debug-toggle", "count-fail",
-           "count-null"]
+           "count-null", "chunk-off-on", "chunk-off-on"]
 
 
 def detour(sc, i, kind, L, rnd):
@@ -292,6 +297,13 @@ def detour(sc, i, kind, L, rnd):
         fit = st["fit"]
         sc.chunk(i, rnd.choice([6, 9, 13]))
         sc.asm(i, [ok[2]], [L.text[ok[2]]])
+        sc.chunk(i, fit)
+    elif kind == "chunk-off-on":
+        # fitting switched off and on again with the SAME size (and in between possibly a call): must equal never having touched it
+        fit = st["fit"]
+        sc.chunk(i, rnd.choice([0, 1]))
+        if rnd.random() < 0.5:
+            sc.asm(i, [ok[2]], [L.text[ok[2]]])
         sc.chunk(i, fit)
     elif kind == "debug-toggle":
         sc.lines.append("G %d 1" % i); sc.meta.append({})
@@ -613,6 +625,8 @@ def run(prop, tier, replay=None):
             scripts += [x for x in c13_boundary(L, rnd, tier) if x.sid.startswith("C13-g")]
         if prop == "C07":
             scripts += c07_boundary(L, rnd, tier)
+        if prop in ("C15", "C13"):
+            scripts += c15_directed(L, rnd, tier)
         if prop == "C19":
             scripts += c19_scripts(L, rnd, tier)
     results = execute(scripts, L)
@@ -795,6 +809,20 @@ def c08_boundary(L, rnd, tier):
                         # jump over the body: the code starts with the body, so append "mov rax, v ; ret" and execute only when the body is nops
                         pass
                     out.append(sc)
+    # many growth steps: programs ending around the 11th, 12th, 22nd (thorough: also 44th) multiple of the quantum
+    for mult in ((11, 12, 22, 44) if tier == "thorough" else (11, 22)):
+        for d in (-1, 21):
+            for mode in ("plain", "fit", "count"):
+                sc = Script("C08-m%d" % n); n += 1
+                sc.create(1, "int", 0)
+                sc.mirror(1)
+                if mode == "fit":
+                    sc.chunk(1, 16)
+                body = build(mult * 6000 + d)
+                half = len(body) // 2
+                sc.asm(1, body[:half], [L.text[x] for x in body[:half]], count=(16 if mode == "count" else None))
+                sc.asm(1, body[half:], [L.text[x] for x in body[half:]], count=(16 if mode == "count" else None))
+                out.append(sc)
     # a call that STARTS inside the last 20 bytes of the mapped buffer (the previous call ended there, or asm_set_offset put it there)
     small = [L.bylen[3][0], L.bylen[1][0], L.bylen[7][0] if L.bylen.get(7) else L.bylen[3][0]]
     for mult in mults:
@@ -876,6 +904,54 @@ def c13_boundary(L, rnd, tier):
                         sc.offset(1, pos)
                         sc.asm(1, [k2, k1, k2], [L.text[k2], L.text[k1], L.text[k2]], count=(c if mode == "count" else None), twin=True)
                         out.append(sc)
+    return out
+
+
+def c15_directed(L, rnd, tier):
+    """histories that end in a chunk-fitting call which HAS to pad (so that a lost or stale mode / chunk size shows in the bytes),
+    compared with a fresh twin: fitting switched off and on again, other sizes in between, counting calls (succeeding, failing,
+    without a place for the count), option round trips, debug toggles"""
+    out, n = [], 0
+    bad = L.bad[0]
+    k3 = L.bylen[3][0]; k7 = (L.bylen.get(7) or L.bylen[3])[0]; k1 = L.bylen[1][0]
+    cs = (8, 16, 5) if tier == "quick" else (4, 5, 8, 9, 16, 32)
+    for c in cs:
+        for hist in ("off-on", "off1-call-on", "other-size", "count-ok", "count-fail", "count-null", "count-same", "debug", "opt-roundtrip", "set-again", "fail-then"):
+            for ln_key in (k3, k7):
+                ln = len(L.codes[ln_key][0])
+                if ln >= c:
+                    continue
+                sc = Script("C15-d%d" % n); n += 1
+                sc.create(1, "ext", 600)
+                sc.chunk(1, c)
+                c2 = c + 3
+                if hist == "off-on":
+                    sc.chunk(1, 0); sc.chunk(1, c)
+                elif hist == "off1-call-on":
+                    sc.chunk(1, 1); sc.asm(1, [k3, k1], [L.text[k3], L.text[k1]]); sc.chunk(1, c)
+                elif hist == "other-size":
+                    sc.chunk(1, c2); sc.asm(1, [k7], [L.text[k7]]); sc.chunk(1, c)
+                elif hist == "count-ok":
+                    sc.asm(1, [k7, k3], [L.text[k7], L.text[k3]], count=c2)
+                elif hist == "count-fail":
+                    sc.asm(1, [k7, bad], [L.text[k7], L.text[bad]], count=c2)
+                elif hist == "count-null":
+                    sc.lines.append("N 1 %d z t%d %s" % (c2, len(sc.lines), hx(L.text[k7]))); sc.meta.append({"prog": [k7]}); sc.state[1]["off"] = None
+                elif hist == "count-same":
+                    sc.asm(1, [k7, k3], [L.text[k7], L.text[k3]], count=c)
+                elif hist == "debug":
+                    sc.lines.append("G 1 1"); sc.meta.append({}); sc.lines.append("G 1 0"); sc.meta.append({})
+                elif hist == "opt-roundtrip":
+                    sc.opt(1, "all", "STRICT"); sc.opt(1, "all", "NASM"); sc.opt(1, "mov", "SMART")
+                elif hist == "set-again":
+                    sc.chunk(1, c)
+                elif hist == "fail-then":
+                    sc.asm(1, [k3, bad, k3], [L.text[k3], L.text[bad], L.text[k3]])
+                for free in (1, ln - 1):
+                    pos = 3 * c - free
+                    sc.offset(1, pos)
+                    sc.asm(1, [ln_key, k1, ln_key], [L.text[ln_key], L.text[k1], L.text[ln_key]], twin=True)
+                out.append(sc)
     return out
 
 
